@@ -15,7 +15,8 @@ import execprop
 from corr import Case, compare, judge, account
 
 LEVEL = "proof"
-RULE = execprop.RULE + "; plus study-level runs of staged parameterised specifications"
+RULE = (execprop.RULE + "; plus study-level runs of staged parameterised specifications; plus real local "
+        "processes (exit codes and deaths by signal) through `maestro run -fg` as in C19")
 
 
 def run(ctx, escalated=False):
@@ -32,6 +33,15 @@ def run(ctx, escalated=False):
         if k % 30 == 29:
             shutil.rmtree(os.path.join(ctx.scratch, "cond"), ignore_errors=True)
     import scripted as S
+    # "... or run locally": real processes through the real local adapter (`maestro run -fg`), with scripts
+    # that exit non-zero or are killed by a signal - a child must not start after such a parent
+    import c19
+    S.uninstall()
+    for k in range(10 if quick else 150):
+        c = c19.one_study(ctx, 1000 + k)
+        mon = [("launch-after-deps", d) for cl, d in c.monitor if cl == "order"]
+        extra.append(Case(dict(c.data, kind="local-processes"), [], [], mon, c.nontrivial))
+        ctx.count("local-process-studies")
     S.install()
     cases = cases + extra
     diffs = compare([c for c in cases if c.lines])
